@@ -22,3 +22,21 @@ def timeline(p) -> list:
         if e.kind in ("txn_begin", "txn_commit", "txn_rollback", "store_stage", "call", "ctx", "push", "auto", "claim", "mark", "status_write"):
             out.append(e)
     return out
+
+
+def join_fired_order(ctx):
+    """-> (n_writes, bad_site): `_join_fired = True` must be written after the committed claim and before the plan store."""
+    r = start_if_ready_paths(ctx)
+    n_fired = 0
+    bad_site = None
+    for p in r.paths:
+        tl = timeline(p)
+        commits = [i for i, e in enumerate(tl) if e.kind == "txn_commit"]
+        for i, e in enumerate(tl):
+            if e.kind == "ctx" and e.get("key") == "_join_fired" and e.get("op") == "write":
+                n_fired += 1
+                claim_before = any(c < i for c in commits) and any(x.kind == "store_stage" and x.get("expected") is not None for x in tl[:i])
+                early_plan = [x for x in tl[:i] if x.kind == "store_stage" and x.get("expected") is None]
+                if not claim_before or early_plan:
+                    bad_site = e.site
+    return n_fired, bad_site
